@@ -19,7 +19,13 @@ class DecimalNumber(Number, SerializableField):
         except InvalidOperation as ex:
             raise ValueError(f"{self._name}: {ex.args[0]}") from ex
 
-        super().__set__(instance, value)
+        try:
+            super().__set__(instance, value)
+        except InvalidOperation as ex:
+            # a NaN cannot be compared with minimum / maximum: Decimal signals InvalidOperation
+            raise ValueError(
+                f"{self._name}: Got {value}; cannot be compared with the bounds"
+            ) from ex
 
     def serialize(self, value):
         return float(value)
